@@ -21,6 +21,7 @@ import logging
 import struct
 import sys
 import threading
+import time
 import weakref
 from fractions import Fraction
 
@@ -2108,8 +2109,103 @@ def classify_known(stage, case, viol):
     return None
 
 
+# --- stage: tcp --------------------------------------------------------------------------
+# The same dispatch for messages arriving over a TCP connection opened with
+# NetAddr.connect(): a local TCP peer (stands for a server talking OSC over
+# TCP) sends size-framed reference-encoded messages and hangs up; every
+# enabled responder whose path equals / is matched by the address fires once
+# per message, in registration order, with the message.
+
+def run_tcp(case, v):
+    import socket
+    import struct
+    OscFunc, NetAddr = G['OscFunc'], G['NetAddr']
+    peer = socket.socket(socket.AF_INET, socket.SOCK_STREAM)
+    peer.setsockopt(socket.SOL_SOCKET, socket.SO_REUSEADDR, 1)
+    peer.bind(('127.0.0.1', 0))
+    peer.listen(1)
+    peer.settimeout(20)
+    log = []
+    resps = []
+    for i, r in enumerate(case['resps']):
+        ctor = OscFunc if r['kind'] == 'exact' else OscFunc.matching
+        resps.append(ctor((lambda k: (lambda msg, *_: log.append(
+            (k, list(msg)))))(i), r['path']))
+    addr = NetAddr('127.0.0.1', peer.getsockname()[1])
+    connected = threading.Event()
+    conn = None
+    try:
+        addr.connect(on_complete=lambda *_: connected.set(),
+                     on_failure=lambda *_: connected.set())
+        conn, _ = peer.accept()
+        if not connected.wait(20) or not addr.is_connected:
+            raise HarnessError('could not set up the TCP connection')
+        for m in case['msgs']:
+            dg = osc_ref.encode_message(m[0], m[1:])
+            conn.sendall(struct.pack('>i', len(dg)) + dg)
+        conn.close()
+        conn = None
+        t0 = time.time()
+        while addr.is_connected and time.time() - t0 < 20:
+            time.sleep(0.002)
+        v.check(not addr.is_connected, 'tcp_end_of_stream_not_seen',
+                'the connection is still reported open 20 s after the peer '
+                'hung up')
+        settle()
+    finally:
+        if conn is not None:
+            conn.close()
+        peer.close()
+        try:
+            addr.disconnect()
+        except Exception:
+            pass
+        for r in resps:
+            r.free()
+    exp = []
+    for m in case['msgs']:
+        # exact responders are dispatched before matching ones (two
+        # dispatchers); within a kind: registration order
+        for kind in ('exact', 'matching'):
+            for i, r in enumerate(case['resps']):
+                if r['kind'] != kind:
+                    continue
+                hit = (r['path'] == m[0]) if kind == 'exact' else bool(
+                    rm.match(m[0], r['path']))
+                if hit:
+                    exp.append((i, list(m)))
+    same = sorted(map(repr, log)) == sorted(map(repr, exp))
+    v.check(same, 'tcp_dispatch',
+            lambda: f'responders invoked {log}, expected {exp} for '
+                    f'{case["msgs"]} over TCP')
+    if same:
+        per = lambda xs, k: [x for x in xs if x[0] == k]
+        for i in range(len(case['resps'])):
+            v.check(per(log, i) == per(exp, i), 'tcp_order',
+                    lambda: f'responder {i}: {per(log, i)} vs {per(exp, i)}')
+    return {'nontrivial': len(exp) >= 2, 'labels': [
+        f'tcp_msgs_{len(case["msgs"])}']}
+
+
+def tcp_cases():
+    paths = ['/t', '/t/a', '/u']
+    pats = ['/t', '/t/*', '/?', '/{t,u}']
+    resp = st.one_of(
+        st.fixed_dictionaries({'kind': st.just('exact'),
+                               'path': st.sampled_from(paths)}),
+        st.fixed_dictionaries({'kind': st.just('matching'),
+                               'path': st.sampled_from(paths)}))
+    msg = st.tuples(st.sampled_from(paths + pats), st.lists(
+        st.sampled_from([0, 1, 0.5, 'a']), max_size=2)).map(
+        lambda t: [t[0]] + t[1])
+    return st.fixed_dictionaries({
+        'resps': st.lists(resp, min_size=1, max_size=4),
+        'msgs': st.lists(msg, min_size=1, max_size=4)})
+
+
 def stages(ctx):
     return [
+        Stage('tcp', run_tcp, tcp_cases(), quick=20, thorough=150),
         Stage('match', run_match, rm.pair_strategy(), quick=2200,
               thorough=12000),
         Stage('match_enum', run_match_enum, cases=enum_cases,
